@@ -28,6 +28,7 @@ type World struct {
 	SSAPkgs map[string]*ssa.Package // by import path
 	PkgByP  map[string]*packages.Package
 	Overlay map[string][]byte
+	sites   map[*ssa.Function][]ssa.CallInstruction
 	Funcs   map[string]*ssa.Function // by qualified short name, see funcKey
 	ctypes  []types.Type
 	tbn     map[string]types.Type
